@@ -16,13 +16,21 @@ INFO = dict(
 
 
 def bounds(tier):
-    return dict(addresses="all addresses", hash="all functions", v4_configs=[ipc.cfg_key(c) for c in ipc.configs_v4(tier)],
+    return dict(symbolic_prefixes="every single user prefix of length %s and every pair of user prefixes of lengths %s (network bits symbolic: nested, disjoint and equal prefixes included)" % (
+                    "8, 25" if tier == "quick" else "0,1,7,8,9,16,23,24,25,31,32", "(8,12)" if tier == "quick" else "(8,12),(8,8),(16,24),(1,32),(24,25)"),
+                addresses="all addresses", hash="all functions", v4_configs=[ipc.cfg_key(c) for c in ipc.configs_v4(tier)],
                 v6_host_bits=[c["B"] for c in ipc.configs_v6(tier)])
 
 
 def items(tier, seed):
     out = [Item("C04", "preserve", dict(family=4, cfg=c), budget_s=300, obligation="H1H2-prefix-and-host-bits-v4") for c in ipc.configs_v4(tier)]
     out += [Item("C04", "preserve", dict(family=6, cfg=c), budget_s=600, obligation="H2-host-bits-v6") for c in ipc.configs_v6(tier)]
+    single = [8, 25] if tier == "quick" else [0, 1, 7, 8, 9, 16, 23, 24, 25, 31, 32]
+    for L in single:
+        for B in ((0, 8) if tier == "quick" else (0, 8, 12)):
+            out.append(Item("C04", "sym_prefix", dict(lengths=[L], B=B), budget_s=600, obligation="H1-every-user-prefix-of-a-length"))
+    for L1, L2 in ([(8, 12)] if tier == "quick" else [(8, 12), (8, 8), (16, 24), (1, 32), (24, 25)]):
+        out.append(Item("C04", "sym_prefix", dict(lengths=[L1, L2], B=0), budget_s=900 if tier == "quick" else 3000, obligation="H1-every-pair-of-user-prefixes"))
     return out
 
 
@@ -92,4 +100,65 @@ def preserve(item, res):
         raise core.EngineError("vacuity twin failed")
 
 
-HARNESSES = {"preserve": preserve}
+def sym_prefix(item, res):
+    """H1/H2 for *every* user prefix of the given lengths: the network bits of the preserved prefixes are symbolic."""
+    import time
+    from ..core import Explorer, SInt
+    lengths, B = item.params["lengths"], item.params["B"]
+    W = 32
+    a, sa = ipc.sym_addr("a", W)
+    ex = Explorer(deadline=time.time() + item.budget_s)
+    found = []
+
+    def h(ex_):
+        an, tops = ipc.make_with_symbolic_prefix(ex_, lengths, B)
+        r = ipc.out_bv(an.anonymize(sa), W)
+        bad = [ipc.in_sym_prefix(a, t, L) != ipc.in_sym_prefix(r, t, L) for t, L in tops]
+        if B:
+            Bq = min(B, W)
+            bad.append(z3.Extract(Bq - 1, 0, r) != z3.Extract(Bq - 1, 0, a))
+        res["finals"] += 1
+        m = ex_.model(z3.Or(*bad))
+        if m is None:
+            res["finals_unsat"] += 1
+            return ("ok", r, tops)
+        found.append((m, tops))
+        return ("cex", r, tops)
+    paths = ex.explore(h)
+    harness.add_stats(res, ex)
+
+    def concrete_cfg(m, tops):
+        pf = []
+        for t, L in tops:
+            v = (ev(m, t) << (32 - L)) if L else 0
+            pf.append("%s/%d" % (ipaddress.IPv4Address(v), L))
+        return dict(prefixes=pf, networks=None, B=B)
+    nval = 0
+    for p in paths:
+        if p.exc is not None and p.model is not None:
+            found.append((p.model, p.extra.get("tops") or [(None, 0)]))
+        elif p.model is not None and nval < 25:
+            cfg = concrete_cfg(p.model, p.result[2])
+            av = ev(p.model, a)
+            _, rr = ipc.md5_table_for(p.model, cfg, 4, [["a", av]])
+            if rr["fresh"][0] != ev(p.model, p.result[1]):
+                raise core.EngineError("concolic mismatch with symbolic prefix %r: a=%d %r vs %r" % (cfg["prefixes"], av, rr["fresh"], ev(p.model, p.result[1])))
+            nval += 1
+            if len(res["samples"]) < 2:
+                res["samples"].append(dict(prefixes=cfg["prefixes"], B=B, a=av, image=rr["fresh"][0]))
+    res["validated"] += nval
+    for m, tops in found[:3]:
+        if tops[0][0] is None and tops[0][1] != 0:
+            continue
+        cfg = concrete_cfg(m, tops)
+        av = ev(m, a)
+        table, rr = ipc.md5_table_for(m, cfg, 4, [["a", av]])
+        res["violations"].append(dict(description="user prefix %r not preserved (or host bits changed)" % cfg["prefixes"], witness=dict(a=av, cfg=ipc.cfg_key(cfg), fresh=rr["fresh"]),
+                                      tags=["prefix-membership"], replay=dict(replayer="ip_preserve", args=dict(family=4, cfg=cfg, a=av, b=None, md5_table=table))))
+        res["status"] = "violated"
+    res["vacuity"] = "witnessed" if any(p.model is not None for p in paths) else "VACUOUS"
+    if res["vacuity"] != "witnessed":
+        raise core.EngineError("no feasible path")
+
+
+HARNESSES = {"preserve": preserve, "sym_prefix": sym_prefix}
